@@ -51,16 +51,18 @@ def pushdown_predicates(expression: E, dialect: DialectType = None) -> E:
                 selected_sources: Sources = scope.selected_sources
                 join_index = {join.alias_or_name: i for i, join in enumerate(joins)}
 
-                # a full join null-extends everything joined so far, so a WHERE predicate can't be
-                # pushed into the FROM source or into any join up to and including the full join
-                full_join_index = max(
-                    (i for i, join in enumerate(joins) if join.side == "FULL"), default=None
+                # an outer join null-extends everything joined before it (a full join also its own
+                # source), so a WHERE predicate can't be pushed into those sources
+                last_outer_join = max(
+                    (i for i, join in enumerate(joins) if join.side in ("RIGHT", "FULL")),
+                    default=None,
                 )
-                if full_join_index is not None:
+                if last_outer_join is not None:
+                    first_safe = last_outer_join + (joins[last_outer_join].side == "FULL")
                     selected_sources = {
                         k: v
                         for k, v in selected_sources.items()
-                        if join_index.get(k, -1) > full_join_index
+                        if join_index.get(k, -1) >= first_safe
                     }
 
                 # a right join can only push down to itself and not the source FROM table
